@@ -23,8 +23,10 @@ RULE = ("cases = sequences of reporting intervals under a harness-controlled clo
         "types with {0,1,2,63,64,65,127,128,129,300,640} distinct types and counts from {1,2,255,65535}, modules "
         "connecting / leaving / declaring pids between reports, intervals that fire only TIMING (0.95 s) or both; "
         "non-trivial = an interval with >=1 counted message was compared against a report; distinct = descriptor hash")
-ASSUMPTIONS = ["everything is published with destination 0 and the monitor is always writable, so the monitor's stream "
-               "is the complete, ordered list of messages handled for forwarding",
+ASSUMPTIONS = ["valid publications go to destination 0 and the monitor is always writable, so the monitor's stream is the "
+               "complete, ordered list of deliverable messages handled for forwarding; messages with a destination "
+               "outside the valid range are handled (counted) but delivered to nobody: the harness attributes them to "
+               "the report whose clock first reaches the clock of the round that serviced them",
                "the first TIMING and first MESSAGE_TRAFFIC report (covering traffic from before the monitor subscribed) "
                "are used for calibration only",
                "an entry (unseen type, count 0) is not an attribution"]
@@ -48,7 +50,7 @@ def gen_cases(tier, seed):
             small = rng.random() < 0.8
             ints.append({"nd": nd, "counts": rng.choice([[1], [1, 2], [1, 2, 3, 255]] if not small else [[1], [1, 2]]),
                          "adv": rng.choice([1.5, 1.5, 0.95, 1.01, 5.5]), "oor": rng.random() < 0.25,
-                         "churn": rng.random() < 0.4})
+                         "churn": rng.random() < 0.4, "baddest": rng.random() < 0.35})
         cases.append({"seed": rng.getrandbits(32), "ints": ints, "npub": rng.choice([1, 2, 4, 8]), "tc": i % 5 == 4})
     # exact chunk boundaries, one each, and the big count
     for nd in NDISTINCT:
@@ -78,8 +80,11 @@ def run_case(case, tier):
         snaps = {}
         published = []   # per traffic interval ground truth from the harness side
 
+        rclock = {}
+
         def do_round(adv):
-            sc.round({"seed": rng.getrandbits(30), "adv": adv})
+            rec = sc.round({"seed": rng.getrandbits(30), "adv": adv})
+            rclock[rec["n"]] = rig.clock
             snaps[round(rig.clock, 6)] = {m.mod_id: m.pid for m in sc.model.mods.values() if m.connected and m.mod_id}
 
         do_round(2.0)  # calibration flush
@@ -92,6 +97,15 @@ def run_case(case, tier):
             for t in types:
                 todo += [t] * rng.choice(iv["counts"])
             rng.shuffle(todo)
+            # some messages carry a destination outside the valid range: handled by the manager (and counted),
+            # delivered to nobody - so the monitor never sees them and the harness accounts for them by round
+            bad = set()
+            if iv.get("baddest") and todo:
+                bad = set(rng.sample(range(len(todo)), max(1, len(todo) // rng.choice([2, 5, 20]))))
+                if rng.random() < 0.3:
+                    bad |= {i for i, t in enumerate(todo) if t == todo[0]}   # a type seen only with bad destinations
+            DEST = [(201, 0), (-1, 0), (32767, 0), (0, 6), (0, -1), (5, 32767)]
+            todo = [(t, *(rng.choice(DEST) if i in bad else (0, 0))) for i, t in enumerate(todo)]
             if iv["churn"]:
                 N = f"x{extra}"
                 extra += 1
@@ -99,22 +113,22 @@ def run_case(case, tier):
                     sc.issue(s)
                 if rng.random() < 0.5 and len(pubs) > 1:
                     sc.issue(["ready", pubs[-1], 31337 + extra])
-            published.append(Counter(todo))
+            published.append(Counter(t for t, dm, dh in todo if (dm, dh) == (0, 0)))
             last = todo[-len(pubs):] if todo else []
             body = todo[:len(todo) - len(last)]
             i = 0
             while i < len(body):
                 chunk = body[i:i + 400 * len(pubs)]
                 i += len(chunk)
-                for j, t in enumerate(chunk):
-                    sc.issue(["pub", pubs[j % len(pubs)], t, 0, 0, 0])
+                for j, (t, dm, dh) in enumerate(chunk):
+                    sc.issue(["pub", pubs[j % len(pubs)], t, dm, dh, 0])
                 while sc.any_pending() and not (sc.crashed or sc.hung):
                     do_round(0.0001)
             while sc.any_pending() and not (sc.crashed or sc.hung):
                 do_round(0.0001)
             # the last messages of the interval are serviced in the reporting round itself (before the timers)
-            for j, t in enumerate(last):
-                sc.issue(["pub", pubs[j % len(pubs)], t, 0, 0, 0])
+            for j, (t, dm, dh) in enumerate(last):
+                sc.issue(["pub", pubs[j % len(pubs)], t, dm, dh, 0])
             do_round(iv["adv"])
             if iv["churn"] and rng.random() < 0.5:
                 sc.issue(["disc", f"x{extra - 1}"])
@@ -123,12 +137,12 @@ def run_case(case, tier):
         do_round(6.0)
         do_round(2.0)
         rig.settle()
-        return judge(sc, case, snaps, published)
+        return judge(sc, case, snaps, published, rclock)
     finally:
         rig.close()
 
 
-def judge(sc, case, snaps, published):
+def judge(sc, case, snaps, published, rclock):
     res = {"violations": [], "counters": {}, "sets": {}, "sig": sig_of({k: case[k] for k in case if k != "n"}),
            "nontrivial": False}
     V, C = res["violations"], res["counters"]
@@ -149,6 +163,16 @@ def judge(sc, case, snaps, published):
     group = None
     harness_pub_total = sum(sum(c.values()) for c in published)
     stream_pub_total = 0
+    # publications with an invalid destination: (clock of the round that serviced them, type), in service order
+    inv = sorted((rclock[p_["round"]], p_["t"]) for p_ in sc.pubs.values()
+                 if "round" in p_ and not (0 <= p_["dm"] <= 200 and 0 <= p_["dh"] <= 5))
+    C["invalid_destination_messages_accounted"] = len(inv)
+    cur = {"t": 0, "f": 0}
+
+    def take(which, upto, into):
+        while cur[which] < len(inv) and inv[cur[which]][0] <= upto + 1e-7:
+            into[inv[cur[which]][1]] += 1
+            cur[which] += 1
 
     def close_group():
         nonlocal group, seen_traffic, fcount
@@ -192,6 +216,7 @@ def judge(sc, case, snaps, published):
             types, counts = u[4:68], u[68:132]
             if group is None or group["seqno"] != seqno:
                 close_group()
+                take("f", u[3], fcount)
                 group = {"seqno": seqno, "subs": [], "subseq": [], "expect": fcount}
                 fcount = Counter()
             group["subs"].append(list(zip(types, counts)))
@@ -203,6 +228,7 @@ def judge(sc, case, snaps, published):
             timing = struct.unpack_from("<10000H", f.payload, 0)
             pids = struct.unpack_from("<200i", f.payload, 20000)
             (st,) = struct.unpack_from("<d", f.payload, 20800)
+            take("t", st, tcount)
             if seen_timing > 1:
                 C["timing_reports_checked"] = C.get("timing_reports_checked", 0) + 1
                 exp = {t: n for t, n in tcount.items() if 0 <= t < 10000}
@@ -234,6 +260,8 @@ def judge(sc, case, snaps, published):
         tcount[f.msg_type] += 1
         fcount[f.msg_type] += 1
     close_group()
+    take("t", float("inf"), tcount)
+    take("f", float("inf"), fcount)
     if stream_pub_total != harness_pub_total:
         V.append({"mech": "monitor_stream_incomplete", "detail": f"harness published {harness_pub_total}, monitor saw {stream_pub_total}"})
     if tcount:
